@@ -2081,6 +2081,41 @@ example : flPhaseMeanLoop ops64 2 1 [[2], [4], [6], [8]] = phaseMeanLoop 2 1 [[2
     ∧ flAnomalyOf ops64 2 1 [[2], [4], [6], [8]] = [[-2], [-2], [2], [2]] := by
   decide +kernel
 
+/-! ### the comparisons of `set_window` in `float32` (NumPy 2: a Python-float bound is converted to
+the grid's `float32`) -/
+
+/-- **on `float32` numbers the `float32` comparison is the exact comparison**: if the coordinates
+of the full grid and the six window bounds are binary32 numbers, `Data.set_window` with every
+comparison carried out in `float32` (`applyWindow32`) selects exactly what the exact model
+(`applyWindow`, §1–§3) selects — the interpretation assumption "coordinates and bounds are
+float32-exact" is the hypothesis of this theorem, under which all window theorems apply to the
+code as executed -/
+theorem float32_comparison_exact (full : View) (w : Win) (hw : w.IsF32)
+    (ht : ∀ t ∈ full.time, IsF32 t) (hla : ∀ t ∈ full.lat, IsF32 t) (hlo : ∀ t ∈ full.lon, IsF32 t) :
+    applyWindow32 full w = applyWindow full w := applyWindow32_eq full w hw ht hla hlo
+
+/-- the same for the object: `set_window` as executed is `Obj.setWindow` -/
+theorem setWindow32_eq_setWindow (o : Obj) (w : Win) (hw : w.IsF32)
+    (ht : ∀ t ∈ o.full.time, IsF32 t) (hla : ∀ t ∈ o.full.lat, IsF32 t)
+    (hlo : ∀ t ∈ o.full.lon, IsF32 t) : o.setWindow32 w = o.setWindow w := by
+  unfold Obj.setWindow32 Obj.setWindow Obj.dataSetWindow
+  rw [applyWindow32_eq o.full w hw ht hla hlo]
+  cases applyWindow o.full w <;> rfl
+
+/-- **the hypothesis is needed** (counter-model; the reason for the interpretation decision): the
+Python float `1 + 2⁻³⁰` is not a binary32 number and is converted to `1.0f`, so the window
+`[1 + 2⁻³⁰, 5/2]` on the time stamps `1, 2, 3` exposes the sample at `t = 1`, which lies outside
+the requested closed window -/
+theorem float32_bound_rounding_changes_selection :
+    let full : View := ⟨[1, 2, 3], [0], [0], [[10], [20], [30]]⟩
+    let w : Win := ⟨1 + 1 / 2 ^ 30, 5 / 2, 0, 0, 0, 0⟩
+    (applyWindow32 full w).map (·.time) = some [1, 2]
+      ∧ (applyWindow full w).map (·.time) = some [2] := by
+  decide +kernel
+
+example : IsF32 (5 / 2) ∧ IsF32 (-(1 / 8)) :=
+  ⟨⟨5, -1, false, by norm_num, by norm_num⟩, ⟨1, -3, true, by norm_num, by norm_num⟩⟩
+
 /-- non-vacuity / the model really rounds: `1 + 2⁻⁵³` is a tie and goes to the even neighbour `1`,
 `1/3` is not representable, a representable sum is returned exactly; in binary32 `1 + 2⁻²⁴` is the tie -/
 example : ops64.add 1 (1 / 2 ^ 53) = 1 ∧ ops64.div 1 3 ≠ 1 / 3 ∧ ops64.add (3 / 2) (-1 / 4) = 5 / 4
